@@ -135,6 +135,9 @@ func cmdVerify(args []string) {
 	for _, n := range notes {
 		fmt.Println("note:", n)
 	}
+	if os.Getenv("GOVC_MERGE_DEBUG") != "" {
+		fmt.Println("merge failures by site:", mergeFailCount)
+	}
 	fmt.Printf("total %.1fs\n", time.Since(t0).Seconds())
 }
 
